@@ -25,6 +25,24 @@ for i in range(1, 21):
     tot += len(names)
     rows.append("| %s | %d | %s | %s |" % (pid, len(names), ", ".join("`%s`" % n for n in full[:14]) + (" …" if len(full) > 14 else ""),
                                         ", ".join("`%s`" % n for n in partial) or "—"))
+import sys
+sys.path.insert(0, os.path.join(VERIF, "harness"))
+try:
+    from core import EXTRA_MODULES
+except Exception:
+    EXTRA_MODULES = {}
+for name in sorted({n for v in EXTRA_MODULES.values() for n in v}):
+    p = os.path.join(VERIF, "lean", "PepperProps", name + ".lean")
+    if not os.path.exists(p):
+        continue
+    body = re.sub(r"/-.*?-/", "", open(p).read(), flags=re.S)
+    body = re.sub(r"--.*", "", body)
+    names = re.findall(r"^\s*theorem\s+([A-Za-z_][\w.']*)", body, flags=re.M)
+    tot += len(names)
+    used = ", ".join(sorted(k for k, v in EXTRA_MODULES.items() if name in v))
+    rows.append("| %s (text level; audited with %s) | %d | %s | %s |" % (name, used, len(names),
+                ", ".join(["`%s`" % n for n in names if "partial" not in n][:14]) + (" …" if len(names) > 14 else ""),
+                ", ".join("`%s`" % n for n in names if "partial" in n) or "—"))
 table = ["| property | theorems | full-strength theorems (first 14) | theorems named `_partial` |", "|---|---|---|---|"] + rows + \
         ["", "Total: %d property theorems; every one is audited with `#print axioms` on every run (allowed: propext, Classical.choice, Quot.sound)." % tot]
 p = os.path.join(VERIF, "DESIGN.md")
